@@ -19,6 +19,7 @@ import (
 	"go/printer"
 	"go/token"
 	"go/types"
+	"path"
 	"sort"
 	"strconv"
 	"strings"
@@ -2582,6 +2583,18 @@ func (ctx Ctx) imports(d []ast.Spec) []coq.Decl {
 		}
 		importPath := stringLitValue(s.Path)
 		if !builtinImports[importPath] {
+			if pkgName := ctx.info.PkgNameOf(s); pkgName != nil {
+				// the body says <package name>.F, the Require line is made
+				// from the path: they have to agree
+				if base := path.Base(importPath); pkgName.Imported().Name() != base {
+					ctx.unsupported(s, "package %s imported from a path that ends in %s", pkgName.Imported().Name(), base)
+				}
+			}
+			for _, elem := range strings.Split(importPath, "/") {
+				if !coq.IsCoqPathElement(elem) {
+					ctx.unsupported(s, "import path element %q does not map to a Coq identifier", elem)
+				}
+			}
 			// TODO: this uses the syntax of the Go import to determine the Coq
 			// import, but Go packages can contain a different name than their
 			// path. We can get this information by using the *types.Package
